@@ -43,9 +43,26 @@ Proof.
   rewrite Hn in EF. cbn [negb orb] in EF. apply Nat.ltb_lt in Hd. apply Nat.leb_le in EF. lia.
 Qed.
 
+(* the capstone of C01Corr for an arbitrary oracle that returns one value per output name *)
+Lemma model_meets_spec_b body (Harity : body_arity body) c : spec_ok_b body c (run_b body c) = true.
+Proof.
+  unfold spec_ok_b. destruct (request_ok (c_funcs c) (c_inputs c)) eqn:Hreq; cbn [negb]; [|reflexivity].
+  unfold expected_b. destruct (denote_run body (c_funcs c) (c_inputs c) (c_internal c)) as [d|e] eqn:Hd;
+    cbn [bind]; [|reflexivity].
+  destruct (map_run_denotes body Harity (c_internal c) _ _ _ Hreq Hd) as [st [Hr [H1 H2]]].
+  unfold run_b. rewrite Hr. unfold SN. rewrite str_eqb_refl. cbn [andb].
+  rewrite (out_obs_eq _ _ H1 H2). apply sx_eqb_refl.
+Qed.
+
+Lemma sym_body_w_arity wf wouts : body_arity (sym_body_w wf wouts).
+Proof.
+  intros f kw outs H. unfold sym_body_w in H.
+  destruct (fouts f) as [|o [|o' os]]; injection H as <-; cbn [length map]; rewrite ?map_length; reflexivity.
+Qed.
+
 Theorem model_meets_spec_x : forall c, Run_C01x.spec_ok c (Run_C01x.run c) = true.
 Proof.
-  intros [c|c order aslist]; [apply model_meets_spec|].
+  intros [c|c order aslist wrapped]; [apply model_meets_spec|].
   cbn [Run_C01x.run Run_C01x.spec_ok].
   destruct (construct (permuted (c_funcs c) order)) as [effp|e] eqn:Ec.
   - destruct (construct_facts _ _ Ec) as [Hlen [S _]].
@@ -54,11 +71,11 @@ Proof.
     { rewrite <- (map_map fspec sx_spec). apply (un_list_map un_spec sx_spec _ un_spec_sx). }
     assert (R : set_specs (permuted (c_funcs c) order) (map fspec effp) = effp).
     { apply set_specs_same. revert S. apply Forall2_impl'. now intros f e0 [H _]. }
-    pose proof (model_meets_spec (mkreq c (reorder (c_funcs c) effp))) as M.
+    pose proof (model_meets_spec_b (body_of c wrapped) (sym_body_w_arity _ _) (mkreq c (reorder (c_funcs c) effp))) as M.
     cbv zeta.
     destruct (prepare_checks (reorder (c_funcs c) effp) (c_inputs c) aslist) as [[]|e] eqn:Ep.
-    + unfold Run_C01.run in *.
-      destruct (map_run sym_body (c_funcs (mkreq c (reorder (c_funcs c) effp))) (c_inputs (mkreq c (reorder (c_funcs c) effp)))
+    + unfold run_b in *.
+      destruct (map_run (body_of c wrapped) (c_funcs (mkreq c (reorder (c_funcs c) effp))) (c_inputs (mkreq c (reorder (c_funcs c) effp)))
                   (c_internal (mkreq c (reorder (c_funcs c) effp)))) as [st|e].
       * rewrite U, map_length, Hlen, Nat.eqb_refl, Hcomp, R, str_eqb_refl. cbn [andb]. rewrite M. now destruct (conforming _ _ _).
       * unfold SErr in *. rewrite U, map_length, Hlen, Nat.eqb_refl, Hcomp, R, str_eqb_refl. cbn [andb]. rewrite M.
